@@ -1111,6 +1111,9 @@ func (broker *Broker) startTrack(wg *sync.WaitGroup) {
 				// If the Q is still not empty, don't block when looking for a
 				// new payload to receive
 				wait = time.After(time.Second)
+			} else if in == nil {
+				// The Q was just emptied and the input is closed: done
+				return
 			}
 		}
 		payload = nil
